@@ -81,6 +81,7 @@ def wireCmd (toks : List String) : String :=
     | some bs, some mx, some fd => showLoad (loadOne true mx fd bs)
     | _, _, _ => "bad-op"
   | "build" :: ops => buildCmd ops
+  | "oombuild" :: ops => buildCmd ops
   | ["swap", hex] =>
     -- what the library does when it reads a message in the other byte order: convert to native
     match ofHex hex with
@@ -107,6 +108,34 @@ def wireCmd (toks : List String) : String :=
       | .incomplete => "incomplete"
     | none => "bad-op"
   | "edit" :: hex :: ops =>
+    -- ops: set:<code>:<tycode>:<hexval|number>  del:<code>  unk  serial:<n>
+    match ofHex hex with
+    | some bs =>
+      match loadOne true MAX_MESSAGE_LENGTH 0 bs with
+      | .ok m0 _ =>
+        let parseOp (o : String) : Option EditOp :=
+          match o.splitOn ":" with
+          | ["set", c, "u", v] => do
+            let c ← c.toNat?; let v ← v.toNat?
+            pure (.set { code := c, ty := .basic .u32, val := .fixed .u32 v })
+          | ["set", c, t, v] => do
+            let c ← c.toNat?; let v ← ofHex v
+            let b ← (if t = "s" then some BTy.str else if t = "o" then some BTy.path else if t = "g" then some BTy.sig else none)
+            pure (.set { code := c, ty := .basic b, val := .str b v })
+          | ["del", c] => do let c ← c.toNat?; pure (.delete c)
+          | ["unk"] => some .removeUnknown
+          | ["serial", n] => do let n ← n.toNat?; pure (.setSerial n)
+          | _ => none
+        match ops.mapM parseOp with
+        | some eops =>
+          let (_, outs) := eops.foldl (fun (acc : Msg × List String) op =>
+            let m' := applyEdit acc.1 op
+            (m', acc.2 ++ [toHex (encodeMsg m')])) (m0, [])
+          " ".intercalate outs
+        | none => "bad-op"
+      | _ => "unloadable"
+    | none => "bad-op"
+  | "oomedit" :: hex :: ops =>       -- same answers: a failed attempt changes nothing, the op is then let through
     -- ops: set:<code>:<tycode>:<hexval|number>  del:<code>  unk  serial:<n>
     match ofHex hex with
     | some bs =>
